@@ -344,6 +344,24 @@ def b_goodman(ctx):
                 mean_got = float(lc.meanstress.iloc[0])
                 if abs(mean_got - got * t_g) > 1e-9 * max(1, abs(got * t_g)):
                     ctx.fail('C12:result-mean', f'transformed cycle has mean {mean_got}, but amplitude {got} on the ray R={Rg} means {got * t_g}', {'a': a, 'm': m, 'R_goal': Rg})
+    # several cycles at once, labelled by something else than 0..n-1 in order: the plain functions answer position by position, the collective accessor hands the
+    # cycles back in the order (and under the labels) it was given (added after seed C12-h: results came back in label order)
+    if ctx.shard == 0:
+        a5 = np.array([1.0, 2.0, 5.0, 2.0, 1.0])
+        m5 = np.array([0.5, -1.0, 2.5, 4.0, -3.0])
+        labels = [3, 0, 4, 1, 2]
+        for Rg in (-1.0, 0.0, 0.4, -math.inf, 2.0):
+            ref = np.asarray(MST.fkm_goodman(a5, m5, 0.5, 0.2, Rg), dtype=float)
+            one = np.array([float(MST.fkm_goodman(np.array([a_]), np.array([m_]), 0.5, 0.2, Rg)[0]) for a_, m_ in zip(a5, m5)])
+            ser = np.asarray(MST.fkm_goodman(pd.Series(a5, index=labels), pd.Series(m5, index=labels), 0.5, 0.2, Rg), dtype=float)
+            ctx.case(True, key=('labels', Rg))
+            if not np.allclose(ref, one, rtol=1e-12, atol=0, equal_nan=True) or not np.allclose(ser, one, rtol=1e-12, atol=0, equal_nan=True):
+                ctx.fail('C12:several-cycles:positional', f'fkm_goodman of 5 cycles -> R={Rg}: arrays {ref.tolist()}, Series labelled {labels} {ser.tolist()}, one cycle at a time {one.tolist()}', {'R_goal': Rg})
+            dfl = pd.DataFrame({'range': 2 * a5, 'mean': m5}, index=pd.Index(labels, name='cycle_number'))
+            lc = dfl.meanstress_transform.fkm_goodman(pd.Series({'M': 0.5, 'M2': 0.2}), Rg)
+            got_l = np.asarray(lc.amplitude, dtype=float)
+            if list(lc.amplitude.index) != labels or not np.allclose(got_l, one, rtol=1e-12, atol=0, equal_nan=True):
+                ctx.fail('C12:several-cycles:collective-order', f'collective accessor on cycles labelled {labels} -> R={Rg}: labels {list(lc.amplitude.index)}, amplitudes {got_l.tolist()}, one cycle at a time {one.tolist()}', {'R_goal': Rg})
     ctx.sample({'cycle': {'a': 2.0, 'm': 1.0}, 'M': 0.3, 'M2': 0.1, 'R_goal': -1.0, 'oracle': _oracle(2.0, 1.0, goodman_segments(0.3, 0.1), -1.0)})
 
 
@@ -376,6 +394,18 @@ def b_matrix(ctx):
                 ctx.case((counts > 0).sum() >= 2, key=(it, Rg, M))
                 if abs(total - counts.sum()) > 1e-9 * max(1, counts.sum()):
                     ctx.fail('C12:matrix-conservation', f'matrix total {counts.sum()} becomes {total} (R_goal {Rg}, M {M})',
+                             {'edges': edges.tolist(), 'counts': counts.tolist(), 'layout': list(idx.names), 'R_goal': Rg, 'M': M})
+                    continue
+                # the classes of a matrix are identified by their limits: the same matrix with its rows listed downwards gives the same transformed histogram
+                # (added after seed C12-h sorted the operands inside HaighDiagram.transform and the re-binning paired sorted ranges with unsorted counts)
+                res_d = mat.sort_index(ascending=False).meanstress_transform.fkm_goodman(pd.Series({'M': M, 'M2': M / 3}), Rg)
+                hu, hd = res.to_pandas(), res_d.to_pandas()
+                try:
+                    same = bool(np.allclose(np.asarray(hd.reindex(hu.index), dtype=float), np.asarray(hu, dtype=float), rtol=1e-12, atol=1e-12)) and len(hu) == len(hd)
+                except Exception:   # noqa
+                    same = False
+                if not same:
+                    ctx.fail('C12:matrix-row-order', f'matrix {list(idx.names)} (R_goal {Rg}, M {M}) listed downwards transforms to {np.asarray(hd, dtype=float).tolist()}, listed upwards to {np.asarray(hu, dtype=float).tolist()}',
                              {'edges': edges.tolist(), 'counts': counts.tolist(), 'layout': list(idx.names), 'R_goal': Rg, 'M': M})
     ctx.sample({'layout': ['from', 'to'], 'cells': 9})
 
